@@ -139,6 +139,11 @@ func (x *xmlParser) Pull() (node.Node, bool, error) {
 				continue
 			}
 
+			// A text node has at least one character: an empty CDATA section on its own is not one.
+			if value == "" {
+				continue
+			}
+
 			return XmlCharData{
 				value: value,
 			}, false, nil
